@@ -286,6 +286,9 @@ func c18(run *core.Run, replay string) {
 	// parallel inverse BWT workers: one block > 4 MiB, several jobs for that block (hint in the header)
 	pipes = append(pipes, racePipe{Cfg: kz.Cfg{Transform: "BWT", Entropy: "ANS0", BlockSize: 8 << 20, Jobs: 4, Checksum: 32}, Shape: "html", Size: 4<<20 + 200000, DecJ: 6, Listen: true, Verbose: 5})
 	pipes = append(pipes, racePipe{Cfg: kz.Cfg{Transform: "BWT", Entropy: "NONE", BlockSize: 8 << 20, Jobs: 2, Checksum: 0}, Shape: "text", Size: 4<<20 + 100000, DecJ: 3})
+	for i, ch := range []string{"EXE+LZ", "TEXT+UTF+EXE+PACK+MM+ROLZ", "EXE+PACK"} {
+		pipes = append(pipes, racePipe{Cfg: kz.Cfg{Transform: ch, Entropy: "NONE", BlockSize: 262144, Jobs: uint(3 + i), Checksum: 32}, Shape: []string{"elfx86", "text", "pe"}[i], Size: 4*262144 + 1000, DecJ: 3})
+	}
 	pipes = append(pipes, racePipe{Cfg: kz.Cfg{Transform: "TEXT", Entropy: "HUFFMAN", BlockSize: 1024, Jobs: 16, Checksum: 64}, Shape: "text", Size: run.Pick(24000, 200000), DecJ: 64, Listen: true, Verbose: 5})
 	wk := &raceWork{Pipes: pipes, Rounds: run.Pick(2, 16), Seed: S, Width: 16}
 	// several UTF / TEXT pipelines side by side (package-level state of a codec is only exposed when two instances overlap)
